@@ -10,6 +10,7 @@ import GoNfsd.Driver.Fsck
 import GoNfsd.Driver.BlockMap
 import GoNfsd.Driver.Cache
 import GoNfsd.Driver.NameCache
+import GoNfsd.Driver.AllocTxn
 
 def main (args : List String) : IO UInt32 :=
   match args with
@@ -25,6 +26,7 @@ def main (args : List String) : IO UInt32 :=
   | ["blockmap"] => GoNfsd.Driver.BlockMap.main
   | ["cache"] => GoNfsd.Driver.Cache.main
   | ["dcache"] => GoNfsd.Driver.NameCache.main
+  | ["atxn"] => GoNfsd.Driver.AllocTxn.main
   | _ => do
     IO.eprintln "usage: drv <mkfs>"
     return 2
